@@ -21,6 +21,11 @@ package main
 //     writes (assignment, op-assignment, ++/--, through any selector, index or
 //     dereference).  The model threads the captured state through sessions and
 //     never writes it; the proof side demands that the list of writes is empty.
+//   - negotiator.go: likewise for the closure returned by negotiator(): the
+//     variables of negotiator() it captures and those it assigns.  The only one
+//     the code assigns is cfg (`cfg = f(s, &cfg)`, the stream configuration the
+//     user's function returns at each call); whether a features list is the
+//     first one of a SESSION lives in negotiatorState, passed through `data`.
 // Control flow is modelled by hand in coq/C02/Model.v.
 
 import (
@@ -219,35 +224,58 @@ func c02Root(e ast.Expr) *ast.Ident {
 
 func (g *gen) c02Captured() {
 	f := g.parse("starttls.go")
-	if f == nil {
-		return
-	}
-	fd := funcDecl(f, "StartTLS")
-	if fd == nil || fd.Body == nil {
-		g.errs = append(g.errs, "starttls.go: func StartTLS not found")
-		return
-	}
-	// the Negotiate function literal
-	var neg *ast.FuncLit
-	ast.Inspect(fd.Body, func(n ast.Node) bool {
-		kv, is := n.(*ast.KeyValueExpr)
-		if !is {
-			return true
+	if f != nil {
+		fd := funcDecl(f, "StartTLS")
+		var neg *ast.FuncLit
+		if fd != nil && fd.Body != nil {
+			ast.Inspect(fd.Body, func(n ast.Node) bool {
+				kv, is := n.(*ast.KeyValueExpr)
+				if !is {
+					return true
+				}
+				if k, is := kv.Key.(*ast.Ident); is && k.Name == "Negotiate" {
+					if fl, is := kv.Value.(*ast.FuncLit); is {
+						neg = fl
+					}
+				}
+				return true
+			})
 		}
-		if k, is := kv.Key.(*ast.Ident); is && k.Name == "Negotiate" {
-			if fl, is := kv.Value.(*ast.FuncLit); is {
-				neg = fl
+		if neg == nil {
+			g.errs = append(g.errs, "starttls.go: Negotiate function literal of StartTLS not found")
+		} else {
+			g.p("\n(* ---- starttls.go StartTLS: state captured by the Negotiate closure ---- *)\n")
+			g.c02Closure(fd, neg, "starttls_captured", "starttls_negotiate_writes")
+		}
+	}
+	f = g.parse("negotiator.go")
+	if f != nil {
+		fd := funcDecl(f, "negotiator")
+		var lit *ast.FuncLit
+		if fd != nil && fd.Body != nil {
+			for _, st := range fd.Body.List {
+				if rs, is := st.(*ast.ReturnStmt); is && len(rs.Results) == 1 {
+					if fl, is := rs.Results[0].(*ast.FuncLit); is {
+						lit = fl
+					}
+				}
 			}
 		}
-		return true
-	})
-	if neg == nil {
-		g.errs = append(g.errs, "starttls.go: Negotiate function literal of StartTLS not found")
-		return
+		if lit == nil {
+			g.errs = append(g.errs, "negotiator.go: function literal returned by negotiator() not found")
+		} else {
+			g.p("\n(* ---- negotiator.go negotiator: state captured by the returned closure ---- *)\n")
+			g.c02Closure(fd, lit, "negotiator_captured", "negotiator_writes")
+		}
 	}
-	// variables of StartTLS itself: parameters and everything declared in its
-	// body outside the function literals (go/parser resolves identifiers to
-	// their declaring object within the file)
+}
+
+// c02Closure reports the variables of fd (parameters and locals declared
+// outside function literals) that the function literal lit mentions, and those
+// of them it assigns (assignment, op-assignment, ++/--, through any selector,
+// index or dereference).
+func (g *gen) c02Closure(fd *ast.FuncDecl, lit *ast.FuncLit, capName, wrName string) {
+	// go/parser resolves identifiers to their declaring object within the file
 	outer := map[*ast.Object]string{}
 	var order []string
 	add := func(id *ast.Ident) {
@@ -265,8 +293,7 @@ func (g *gen) c02Captured() {
 			}
 		}
 	}
-	var walk func(n ast.Node) bool
-	walk = func(n ast.Node) bool {
+	ast.Inspect(fd.Body, func(n ast.Node) bool {
 		switch x := n.(type) {
 		case *ast.FuncLit:
 			return false
@@ -284,16 +311,16 @@ func (g *gen) c02Captured() {
 			}
 		}
 		return true
-	}
-	ast.Inspect(fd.Body, walk)
-	// which of them does Negotiate mention, which does it write
+	})
 	used := map[string]bool{}
 	var writes []string
-	ast.Inspect(neg.Body, func(n ast.Node) bool {
+	ast.Inspect(lit.Body, func(n ast.Node) bool {
 		switch x := n.(type) {
 		case *ast.Ident:
-			if name, is := outer[x.Obj]; is && x.Obj != nil {
-				used[name] = true
+			if x.Obj != nil {
+				if name, is := outer[x.Obj]; is {
+					used[name] = true
+				}
 			}
 		case *ast.AssignStmt:
 			if x.Tok != token.DEFINE {
@@ -314,8 +341,7 @@ func (g *gen) c02Captured() {
 		}
 		return true
 	})
-	g.p("\n(* ---- starttls.go StartTLS: state captured by the Negotiate closure ---- *)\n")
-	g.p("Definition starttls_captured : list bytes := [")
+	g.p("Definition %s : list bytes := [", capName)
 	first := true
 	for _, name := range order {
 		if !used[name] {
@@ -328,8 +354,8 @@ func (g *gen) c02Captured() {
 		g.p("hex \"%s\" (* %s *)", hexOf([]byte(name)), name)
 	}
 	g.p("].\n")
-	g.p("(* captured variables that Negotiate assigns to (directly or through a selector, index or dereference) *)\n")
-	g.p("Definition starttls_negotiate_writes : list bytes := [")
+	g.p("(* captured variables that the closure assigns to (directly or through a selector, index or dereference) *)\n")
+	g.p("Definition %s : list bytes := [", wrName)
 	for i, name := range writes {
 		if i > 0 {
 			g.p("; ")
